@@ -74,6 +74,13 @@ def generate(seed, tier, cfg):
                 continue
             used.add(t)
         controls.append({"type": {64: "sustain_pedal", 67: "soft_pedal", 1: "modulation"}[num], "number": num, "time": t, "value": w.choice((0, 127, 64, 63, 65, 20, 100, w.randrange(0, 128))), "track": 0, "channel": 0})
+    if notes and k.random() < 0.2:
+        # the pedal goes down at the very moment a key comes up (it was up until then) and is lifted later
+        n = w.choice(notes)
+        if n["note_off"] not in used:
+            used.add(n["note_off"])
+            controls.append({"type": "sustain_pedal", "number": 64, "time": n["note_off"], "value": 127, "track": 0, "channel": 0})
+            controls.append({"type": "sustain_pedal", "number": 64, "time": n["note_off"] + w.choice((0.5, 1.5, 3.0)), "value": 0, "track": 0, "channel": 0})
     if late:
         # a passage late in a long recording: the same events ten minutes to an hour in, with the pedal lifted a few
         # milliseconds after a release (absolute times are large, the differences that matter stay small)
